@@ -231,6 +231,10 @@ impl<'t, 'a> Gen<'t, 'a> {
     }
 
     fn method_name(&mut self) -> String {
+        if self.t.chance(8) {
+            // a method that merely has the name of an operator entry
+            return self.t.pick(&["plusOperator", "tplOperator"]).to_string();
+        }
         // configured names weigh more
         let nm = self.o.methods.len();
         let no = self.o.other_methods.len();
@@ -452,7 +456,27 @@ impl<'t, 'a> Gen<'t, 'a> {
                 }
                 E::Array(elems)
             }
-            19 => self.object_lit(d1),
+            19 => {
+                if self.t.chance(40) {
+                    // a class expression used as an operand: its static members are evaluated right there
+                    self.tag("class-expression-operand");
+                    let mut sc = self.sc().clone();
+                    sc.in_class_field = true;
+                    sc.this_ok = true;
+                    sc.in_async = false;
+                    sc.in_gen = false;
+                    self.scopes.push(sc);
+                    let a = E::Call { callee: self.local_fn_or_h().bx(), args: vec![Arg { spread: false, e: self.ident() }], optional: false };
+                    let b = E::Call { callee: self.local_fn_or_h().bx(), args: vec![Arg { spread: false, e: self.ident() }], optional: false };
+                    self.scopes.pop();
+                    if self.o.avoid.instr_in_param_default {
+                        // (the open finding about initialisers sharing the enclosing block's temporaries covers instance
+                        // fields; static members run once, in place, and are generated)
+                    }
+                    return E::Member { obj: E::Raw(format!("(class {{ static s = {} + {}; static [{}]() {{ return 1; }} }})", a.print(), b.print(), a.print())).bx(), prop: "s".into(), optional: false };
+                }
+                self.object_lit(d1)
+            }
             20 => {
                 let callee = if self.t.chance(40) {
                     // `new (a + b).constructor(x)`: the parentheses decide what is constructed
